@@ -92,3 +92,9 @@ Fixpoint ac_decode (fuel : nat) (d : nat -> bool) (kle : Z -> bool) (n : nat) (k
         end
     end
   else DOk n k tr.
+
+(* which statistics areas the MCU decoder selected by start_pass dereferences (decode_mcu: both;
+   decode_mcu_DC_first: dc_stats[Td]; decode_mcu_AC_first / _AC_refine: ac_stats[Ta]; decode_mcu_DC_refine: fixed_bin only;
+   selection: "if (cinfo->Ah == 0) { Ss == 0 ? DC_first : AC_first } else { Ss == 0 ? DC_refine : AC_refine }") *)
+Definition decoder_uses_dc (prog : bool) (Ss Ah : Z) : bool := negb prog || ((Ss =? 0) && (Ah =? 0)).
+Definition decoder_uses_ac (prog : bool) (Ss Ah : Z) : bool := negb prog || negb (Ss =? 0).
